@@ -1,6 +1,8 @@
 package checks
 
 import (
+	"github.com/transparency-dev/witness/internal/witness"
+	"time"
 	"bytes"
 	"context"
 	"fmt"
@@ -49,6 +51,12 @@ type sumdbServer struct {
 	reqs   []string
 	// prefix: the path component of the log's base URL ("" or "/a/b").
 	prefix string
+	// faultAt/faultKind: the faultAt-th request (0-based) is answered wrongly,
+	// once: "truncated" / "zeros" (200 with a damaged body), "http-500",
+	// "conn-error". Everything before and after is answered correctly.
+	faultAt   int
+	faultKind string
+	nreq      int
 }
 
 func (s *sumdbServer) ReadHashes(idx []int64) ([]tlog.Hash, error) {
@@ -69,7 +77,31 @@ func (s *sumdbServer) RoundTrip(r *http.Request) (*http.Response, error) {
 	p := r.URL.Path
 	s.mu.Lock()
 	s.reqs = append(s.reqs, p)
+	me := s.nreq
+	s.nreq++
 	s.mu.Unlock()
+	if s.faultKind != "" && me == s.faultAt {
+		inner := *s
+		inner.faultKind = ""
+		resp, err := (&inner).RoundTrip(r)
+		s.mu.Lock()
+		s.bad = append(s.bad, inner.bad...)
+		s.mu.Unlock()
+		if err != nil || resp.StatusCode != 200 {
+			return resp, err
+		}
+		body, _ := io.ReadAll(resp.Body)
+		switch s.faultKind {
+		case "truncated":
+			return mk(200, body[:len(body)/2])
+		case "zeros":
+			return mk(200, make([]byte, len(body)))
+		case "http-500":
+			return mk(500, nil)
+		default:
+			return nil, fmt.Errorf("verif: connection reset")
+		}
+	}
 	if !strings.HasPrefix(p, s.prefix+"/") {
 		s.mu.Lock()
 		s.bad = append(s.bad, fmt.Sprintf("%s: not below the log's base URL path %q", p, s.prefix))
@@ -136,12 +168,20 @@ type c18Witness struct {
 	proof  [][]byte
 	cp     []byte
 	calls  int
+	// verify: refuse (as the real witness does) a step whose proof the RFC
+	// 6962 reference rejects; refused counts those.
+	verify  func(old uint64, cp []byte, p [][]byte) bool
+	refused int
 }
 
 func (w *c18Witness) GetLatestCheckpoint(context.Context, string) ([]byte, error) {
 	return w.latest, nil
 }
 func (w *c18Witness) Update(_ context.Context, _ string, old uint64, cp []byte, p [][]byte) ([]byte, error) {
+	if w.verify != nil && !w.verify(old, cp, p) {
+		w.refused++
+		return w.latest, witness.ErrInvalidProof
+	}
 	w.calls++
 	w.old, w.proof, w.cp = old, p, cp
 	return cp, nil
@@ -392,6 +432,62 @@ func c18(tier string) int {
 	}
 	close(ch)
 	wg.Wait()
+	// One wrong answer, then correct ones: the feeder retries and gets there
+	// (a tile or checkpoint fetched once must not poison later attempts). For
+	// pairs that need complete tiles, every request position x four kinds of
+	// wrong answer; the retry loop's back-off timers fire at once, at most 4.
+	var transient int64
+	for _, p := range []pair{{300, 700, false}, {100, 600, false}, {255, 513, false}, {1, 300, false}} {
+		dry := &sumdbServer{hashes: srvAll.hashes, size: int64(p.to), latest: cpsGet(cps, u, origin, p.to)}
+		witCP := u.Sign(uni.Body(origin, uint64(p.from), u.Main.Root(p.from)), u.K1.Signer, u.W1.CosigSigner)
+		ctx0, rel0 := wh.NoRetryContext(context.Background())
+		_ = sumdb.FeedLog(ctx0, cl, &c18Witness{latest: witCP}, &http.Client{Transport: dry}, 0)
+		rel0()
+		for at := 0; at < dry.nreq; at++ {
+			for _, kind := range []string{"truncated", "zeros", "http-500", "conn-error"} {
+				srv := &sumdbServer{hashes: srvAll.hashes, size: int64(p.to), latest: dry.latest, faultAt: at, faultKind: kind}
+				// A witness that verifies proofs, as the real one does (x/mod's
+				// tlog.TileHashReader lets a zeroed full level-0 tile through -
+				// measured - so the feeder may well submit a wrong proof after a
+				// damaged answer; the witness refuses it and the feeder retries).
+				sw := &c18Witness{latest: witCP, verify: func(old uint64, _ []byte, pr [][]byte) bool {
+					ok, _ := ref6962.Verify(old, uint64(p.to), pr, u.Main.Root(int(old)), u.Main.Root(p.to))
+					return old == uint64(p.from) && ok
+				}}
+				ctx, cancel := context.WithCancel(context.Background())
+				fired := 0
+				unhook := wh.GoroutineTimerHook(func(time.Duration) bool {
+					fired++
+					if fired > 4 {
+						cancel()
+						return false
+					}
+					return true
+				})
+				err := sumdb.FeedLog(ctx, cl, sw, &http.Client{Transport: srv}, 0)
+				unhook()
+				cancel()
+				transient++
+				if len(srv.bad) > 0 {
+					run.Report("tile-request after-one-wrong-answer kind="+kind, fmt.Sprintf("feeding %d -> %d with request #%d answered wrongly once (%s): %s", p.from, p.to, at, kind, srv.bad[0]), map[string]any{"kind": "sumdb-transient", "from": p.from, "to": p.to, "at": at, "fault": kind})
+					continue
+				}
+				// The fetch of /latest is not retried inside a cycle (the cycle
+				// fails and the next poll repeats it): only proofs are.
+				if at == 0 {
+					continue
+				}
+				if err != nil || sw.calls != 1 || sw.old != uint64(p.from) {
+					run.Report("no-recovery-after-one-wrong-answer kind="+kind, fmt.Sprintf("feeding %d -> %d: request #%d (%s) was answered wrongly once (%s), every later answer was correct, but after %d immediate retries the cycle ended with err=%v and %d Update calls", p.from, p.to, at, srv.reqs[at], kind, fired, err, sw.calls), map[string]any{"kind": "sumdb-transient", "from": p.from, "to": p.to, "at": at, "fault": kind})
+					continue
+				}
+				if sw.refused > 0 {
+					run.Add("wrong_proofs_submitted_after_a_damaged_tile_and_refused_by_the_witness", int64(sw.refused))
+				}
+			}
+		}
+	}
+	run.Set("cycles_with_one_wrong_answer", transient)
 	for _, p := range pairs {
 		if p.to-p.from == 1 || p.from == 1 {
 			run.Distinct(fmt.Sprintf("pair|%d|%d", p.from, p.to))
@@ -407,4 +503,13 @@ func c18(tier string) int {
 	run.Set("exhaustive", true)
 	run.Set("rule", fmt.Sprintf("base URLs: host only, and (reduced coordinate set / pairs up to 40 + tile boundaries + the large pairs) with a one- and a two-segment path component - every request must stay below the base; addressing: for every level 0..7, every index 0..2100 plus every carry boundary of the x%%03d encoding up to 10^9 (+-1), widths 1..256 (all widths on indices <= 40 and around multiples of 1000, 8 boundary widths elsewhere): the path requested by SumDBClient.TileData / FullLeavesAtOffset / PartialLeavesAtOffset (observed at the HTTP transport) equals tlog.Tile.Path(). Proofs: the real sumdb.FeedLog (interval 0) for ALL pairs 1 <= from < to <= %d plus 59 pairs reaching up to 70 000 leaves (full tiles above level 0, the same tile index at two levels within one proof) against an in-process server that serves /latest and tlog tiles of a generated tree and rejects any tile that does not exist at that size or is requested with a wrong width; the proof handed to the witness must verify with the independent RFC 6962 reference and merkle/proof, and (boundary pairs and every 7th pair) be accepted by the real witness. distinct_nontrivial = coordinates + feed cycles, all distinct by construction", maxN))
 	return run.Finish()
+}
+
+// cpsGet returns (and caches) the log's checkpoint at size n.
+func cpsGet(cps map[int][]byte, u *uni.U, origin string, n int) []byte {
+	if b, ok := cps[n]; ok {
+		return b
+	}
+	cps[n] = u.Sign(uni.Body(origin, uint64(n), u.Main.Root(n)), u.K1.Signer)
+	return cps[n]
 }
